@@ -445,6 +445,7 @@ class ServerProc(object):
                 name, _, value = line.partition(b':')
                 if name.strip().lower() == b'sec-websocket-key':
                     self.key = value.strip()
+                    self.w.keys_seen.append(self.key)
 
     def _react_send(self, data):
         if self.alive and not self.st.closed:
@@ -541,7 +542,13 @@ class ServerProc(object):
             key = self.key if self.key is not None else b''
             good = peer.accept_for(key)
             mode = step.get('accept', 'ok')
-            tmpl = tmpl.replace(b'@@ACCEPT@@', accept_variant(good, mode, step))
+            if mode == 'prev_key':
+                prev = self.w.keys_seen[-2] if len(self.w.keys_seen) > 1 \
+                    else b'AAAAAAAAAAAAAAAAAAAAAA=='
+                val = peer.accept_for(prev)
+            else:
+                val = accept_variant(good, mode, step)
+            tmpl = tmpl.replace(b'@@ACCEPT@@', val)
         return tmpl
 
 
@@ -641,6 +648,7 @@ class World(object):
         self.pre_write = None       # ThreadSim hook
         self.exit_waits = []
         self.fault_marks = []
+        self.keys_seen = []
 
     # -- bookkeeping
     def next_seq(self):
